@@ -87,6 +87,33 @@ def check_thresh_perfect(rep, run: Run, D: Blocks):
         lhs, rhs, op = ev["lhs"], ev["rhs"], ev["op"]
         le = lhs.e if isinstance(lhs, Sc) else None
         re_ = rhs.e if isinstance(rhs, Sc) else None
+        flip = {"<": ">", "<=": ">=", ">": "<", ">=": "<=", "==": "==", "!=": "!="}
+        # vectorised edge predicate: the whole cost matrix against the candidate (`D <= d`)
+        whole = None
+        if getattr(lhs, "uid", None) == D.uid and lhs is not None and not isinstance(lhs, Sc) and re_ is not None:
+            whole = (re_, op)
+        elif getattr(rhs, "uid", None) == D.uid and rhs is not None and not isinstance(rhs, Sc) and le is not None:
+            whole = (le, flip[op])
+        if whole is not None:
+            y, o = whole
+            found_edge += 1
+            cand_ok = (y == elems) or (y[0] == "choice" and set(y[1]) <= set(elems[1] if elems[0] == "choice" else [elems])) \
+                or (y in (elems[1] if elems[0] == "choice" else [elems])) \
+                or (y[0] == "opq" and y[1] == "carry")
+            if not cand_ok:
+                rep.refuted("BN-THRESH", fi, ev["node"],
+                            f"the threshold {sym.show(y)[:120]} is not one of the matrix's own entries: the optimal "
+                            f"value need not be among the candidates tested")
+            elif o == "<=":
+                rep.discharged("BN-THRESH", fi, ev["node"], "edge predicate compares every entry of the cost matrix "
+                                                            "inclusively with a candidate drawn from the same matrix")
+            elif o == "<":
+                rep.refuted("BN-THRESH", fi, ev["node"],
+                            "strict edge predicate: the optimal cost is itself a candidate and its own edges are "
+                            "excluded, so the true bottleneck value is declared infeasible")
+            else:
+                rep.refuted("BN-THRESH", fi, ev["node"], f"edge predicate uses `{o}` instead of `<=`")
+            continue
         if le is None or re_ is None:
             continue
         # edge predicate: an element of D against the candidate
@@ -95,6 +122,7 @@ def check_thresh_perfect(rep, run: Run, D: Blocks):
             if x[0] == "at" and x[1] == D.uid:
                 found_edge += 1
                 cand_ok = (y == elems) or (y[0] == "choice" and set(y[1]) <= set(elems[1] if elems[0] == "choice" else [elems])) \
+                or (y in (elems[1] if elems[0] == "choice" else [elems])) \
                     or (y[0] == "opq" and y[1] == "carry")
                 if not cand_ok:
                     rep.refuted("BN-THRESH", fi, ev["node"],
@@ -344,28 +372,78 @@ def _check_lohi(rep, run, D, fi, w) -> bool:
                 inits[st.targets[0].id] = st.value
     lo0 = inits.get(lo)
     hi0 = inits.get(hi)
-    ok_init = lo0 is not None and isinstance(lo0, ast.Constant) and lo0.value == 0 and hi0 is not None and \
-        ast.unparse(hi0).replace(" ", "").startswith("len(") and ast.unparse(hi0).replace(" ", "").endswith(")-1")
-    if ok_init:
+    hi_txt = ast.unparse(hi0).replace(" ", "") if hi0 is not None else ""
+    lo_zero = lo0 is not None and isinstance(lo0, ast.Constant) and lo0.value == 0
+    inclusive = lo_zero and hi_txt.startswith("len(") and hi_txt.endswith(")-1")
+    half_open = lo_zero and hi_txt.startswith("len(") and hi_txt.endswith(")") and hi_txt.count("(") == 1
+    cand = None
+    if inclusive:
         rep.discharged("BN-BISECT", fi, w, f"search starts on the whole candidate range [0, len−1]; the last (largest) candidate "
                                            f"is always feasible")
+        ans = [st for st in ast.walk(f) if isinstance(st, ast.Assign) and st.lineno > w.end_lineno
+               and isinstance(st.value, ast.Subscript) and isinstance(st.value.slice, ast.Name) and st.value.slice.id == lo]
+        if ans:
+            cand = ast.unparse(ans[0].value.value)
+            rep.discharged("BN-BISECT", fi, ans[0], f"the distance is the candidate at the final lower bound "
+                                                    f"({ast.unparse(ans[0].value)})")
+        else:
+            rep.unmodelled("BN-BISECT", fi, w, "the value returned after the search was not recognised")
+    elif half_open:
+        rep.discharged("BN-BISECT", fi, w, "search starts on the whole candidate range [0, len) (half-open)")
+        # the answer is recorded from the probe in the feasible arm and starts at the largest candidate
+        probes = [st for st in w.body if isinstance(st, ast.Assign) and isinstance(st.targets[0], ast.Name)
+                  and isinstance(st.value, ast.Subscript) and isinstance(st.value.slice, ast.Name) and st.value.slice.id == mid
+                  and isinstance(st.value.value, ast.Name)]
+        feas_body = br.body if hi in upd(br.body) else br.orelse
+        if not probes:
+            rep.unmodelled("BN-BISECT", fi, w, "probe element of the candidate array not found")
+        else:
+            dname, cand = probes[0].targets[0].id, probes[0].value.value.id
+            accepted = [st for st in feas_body if isinstance(st, ast.Assign) and isinstance(st.value, ast.Name)
+                        and st.value.id == dname and isinstance(st.targets[0], ast.Name)]
+            if not accepted:
+                rep.refuted("BN-BISECT", fi, br, "the feasible arm never records the probed value as the new distance")
+            else:
+                res_name = accepted[0].targets[0].id
+                others = [n for n in ast.walk(w) if isinstance(n, ast.Assign) and isinstance(n.targets[0], ast.Name)
+                          and n.targets[0].id == res_name and n not in accepted]
+                if others:
+                    rep.refuted("BN-BISECT", fi, others[0], "the distance is also overwritten outside the feasible arm")
+                else:
+                    rep.discharged("BN-BISECT", fi, accepted[0], f"`{res_name}` is only ever replaced by a feasible candidate")
+                init = [st for st in f.body if isinstance(st, ast.Assign) and isinstance(st.targets[0], ast.Name)
+                        and st.targets[0].id == res_name]
+                if init and isinstance(init[0].value, ast.Subscript) and isinstance(init[0].value.value, ast.Name) \
+                        and init[0].value.value.id == cand and ast.unparse(init[0].value.slice) == "-1":
+                    rep.discharged("BN-BISECT", fi, init[0], "search starts from the largest candidate (always feasible: +inf "
+                                                             "or the all-to-diagonal matching)", nontrivial=False)
+                elif init:
+                    rep.refuted("BN-BISECT", fi, init[0], "initial distance is not the largest candidate: if no probe succeeds "
+                                                          "the returned value is not a feasible cost")
+                else:
+                    rep.unmodelled("BN-BISECT", fi, w, "initial value of the distance not found")
     else:
         rep.unmodelled("BN-BISECT", fi, w, f"initial search bounds {ast.unparse(lo0) if lo0 is not None else '?'}, "
                                            f"{ast.unparse(hi0) if hi0 is not None else '?'} not recognised")
-    ans = [st for st in ast.walk(f) if isinstance(st, ast.Assign) and st.lineno > w.end_lineno and isinstance(st.value, ast.Subscript)
-           and isinstance(st.value.slice, ast.Name) and st.value.slice.id == lo]
-    if ans:
-        cand = ast.unparse(ans[0].value.value)
-        rep.discharged("BN-BISECT", fi, ans[0], f"the distance is the candidate at the final lower bound ({ast.unparse(ans[0].value)})")
+    if cand is not None:
+        seen_c = False
         for ev in run.events("assign"):
-            if ev["name"] == cand and isinstance(ev["value"], Bag):
-                if ev["value"].elem == D.elem_choice():
-                    rep.discharged("BN-THRESH", fi, ev["node"], "candidate thresholds are exactly the entries of the cost matrix")
-                else:
-                    rep.refuted("BN-THRESH", fi, ev["node"], "candidate thresholds are not the entries of the cost matrix")
-                break
-    else:
-        rep.unmodelled("BN-BISECT", fi, w, "the value returned after the search was not recognised")
+            if ev["name"] != cand:
+                continue
+            seen_c = True
+            v = ev["value"]
+            if isinstance(v, Bag) and v.elem == D.elem_choice():
+                rep.discharged("BN-THRESH", fi, ev["node"], "candidate thresholds are exactly the entries of the cost matrix")
+            elif isinstance(v, (Bag, Arr)):
+                from ..core.values import generic_elem
+                rep.refuted("BN-THRESH", fi, ev["node"], f"candidate thresholds are drawn from {sym.show(generic_elem(v))[:120]}, "
+                                                         f"not from all entries of the cost matrix: the optimal value (for "
+                                                         f"instance a cost of matching to the diagonal) need not be among them")
+            else:
+                rep.unmodelled("BN-THRESH", fi, ev["node"], f"candidate thresholds not modelled: {v!r}"[:160])
+            break
+        if not seen_c:
+            rep.unmodelled("BN-THRESH", fi, w, f"definition of the candidate array `{cand}` not found")
     return True
 
 
